@@ -71,6 +71,11 @@ def analyse(text, variant, qs):
     if r.error or r.crash or not r.dumprec("VEC"):
         return r, [("workflow", False, "error=%r crash=%r" % (r.error, r.crash))], {}
     fails, facts = analyse_dump(r.dump)
+    for t in r.impl:     # copies of computed operators (h_ed prints OPCOPY <kind> <idx> OK | DIFF <what>)
+        if t[0] == "OPCOPY" and t[3] != "OK":
+            fails.append(("copy", True, "a copy of the computed operator %s_%s is not the operator it was copied from: %s" % (t[1], t[2], " ".join(t[4:]))))
+            break
+    facts["copies_compared"] = len([t for t in r.impl if t[0] == "OPCOPY"])
     return r, fails, facts
 
 
